@@ -82,9 +82,19 @@ struct Dumper {
     }
     return r;
   }
+  static bool isLambdaTy(QualType T) {
+    if (T.isNull())
+      return false;
+    QualType NR = T.getNonReferenceType();
+    if (auto *RD = NR->getAsCXXRecordDecl())
+      return RD->isLambda();
+    return false;
+  }
   static bool weird(QualType T) {
     if (T.isNull())
       return true;
+    if (isLambdaTy(T))
+      return false;
     if (T->isDependentType() || T->isUndeducedType() ||
         T->isPlaceholderType() || T->containsUnexpandedParameterPack())
       return true;
@@ -178,7 +188,9 @@ struct Dumper {
       o["k"] = "fn";
     else if (U->isMemberPointerType())
       o["k"] = "memptr";
-    if (!U->isIncompleteType() && !U->isFunctionType() && !U->isVoidType()) {
+    if (isLambdaTy(U))
+      o["lambda"] = true;
+    if (!U->isIncompleteType() && !U->isFunctionType() && !U->isVoidType() && !isLambdaTy(U)) {
       o["sz"] = (int64_t)C.getTypeSizeInChars(U).getQuantity();
       o["al"] = (int64_t)C.getTypeAlignInChars(U).getQuantity();
     }
